@@ -513,6 +513,48 @@ impl Hist {
         learn(known, &r);
         self.end(s, &r);
     }
+    /// File operations on OTHER entries of the project whose names share a prefix with the document's
+    /// (a directory `doc` next to `doc.st`, `doc.st.bak`, `do/`, ...), done by a session of its own that
+    /// is not part of the history: for the model nothing happens to the document, so these calls are not
+    /// logged -- any effect they have on the document's version or content makes the history unexplainable.
+    /// Each variant leaves the project as it found it.
+    fn other(&self, k: u64) {
+        let Ok(sess) = self.ide.create_session(IdeRole::Editor) else { return };
+        let t = sess.token.as_str();
+        let ide = &self.ide;
+        let _ = catch_unwind(AssertUnwindSafe(|| match k % 6 {
+            0 => {
+                let _ = ide.create_entry(t, "doc", true, None, true);
+                let _ = ide.delete_entry(t, "doc", true);
+            }
+            1 => {
+                let _ = ide.create_entry(t, "doc.st.bak", false, Some("x".into()), true);
+                let _ = ide.open_source(t, "doc.st.bak");
+                let _ = ide.delete_entry(t, "doc.st.bak", true);
+            }
+            2 => {
+                let _ = ide.create_entry(t, "do", true, None, true);
+                let _ = ide.create_entry(t, "do/doc.st", false, Some("y".into()), true);
+                let _ = ide.open_source(t, "do/doc.st");
+                let _ = ide.delete_entry(t, "do", true);
+            }
+            3 => {
+                let _ = ide.create_entry(t, "doc.s", false, Some("z".into()), true);
+                let _ = ide.rename_entry(t, "doc.s", "doc.stx", true);
+                let _ = ide.delete_entry(t, "doc.stx", true);
+            }
+            4 => {
+                let _ = ide.create_entry(t, "d", true, None, true);
+                let _ = ide.rename_entry(t, "d", "doc.st.d", true);
+                let _ = ide.delete_entry(t, "doc.st.d", true);
+            }
+            _ => {
+                let _ = ide.delete_entry(t, "doc.stx", true);
+                let _ = ide.delete_entry(t, "DOC.ST.", true);
+                let _ = ide.rename_entry(t, "nothing.st", "doc.st2", true);
+            }
+        }));
+    }
     fn finish(&self, kind: &str) -> J {
         let text = std::fs::read_to_string(&self.file).unwrap_or_default();
         let disk = self.content_id(&text);
@@ -599,6 +641,7 @@ fn run_seq_script(dir: &Path, sc: &J) -> J {
         match a {
             "open" => h.open(s, &mut known[s - 1]),
             "write" => h.write(s, &mut known[s - 1], st["we"].as_bool().unwrap_or(true), st["stale"].as_bool().unwrap_or(false)),
+            "other" => h.other(st["k"].as_u64().unwrap_or(0)),
             "expire" => {
                 // let exactly this session idle for longer than the TTL: renew the others, half the
                 // TTL, renew the others, the other half
@@ -662,7 +705,9 @@ fn run_conc_script(dir: &Path, sc: &J) -> J {
             barrier.wait();
             for c in prog.iter() {
                 spin_us(c["d"].as_u64().unwrap_or(0));
-                if c["a"] == "open" {
+                if c["a"] == "other" {
+                    h.other(c["k"].as_u64().unwrap_or(0));
+                } else if c["a"] == "open" {
                     h.open(s, &mut known);
                 } else {
                     h.write(s, &mut known, c["we"].as_bool().unwrap_or(true), c["stale"].as_bool().unwrap_or(false));
@@ -925,8 +970,10 @@ fn gen_seq(rng: &mut StdRng) -> J {
             json!({"a": "open", "s": s, "we": true})
         } else if x < 85 {
             json!({"a": "write", "s": s, "we": rng.gen_bool(0.9), "stale": rng.gen_bool(0.15)})
-        } else if x < 93 {
+        } else if x < 90 {
             json!({"a": "ext", "s": 0, "we": true})
+        } else if x < 96 {
+            json!({"a": "other", "s": 0, "we": true, "k": rng.gen_range(0..6)})
         } else {
             json!({"a": "expire", "s": s, "we": true})
         });
@@ -946,6 +993,8 @@ fn gen_conc(rng: &mut StdRng) -> J {
             let x = rng.gen_range(0..100);
             prog.push(if x < 30 {
                 json!({"a": "open", "we": true, "d": rng.gen_range(0..=maxd)})
+            } else if x < 36 {
+                json!({"a": "other", "we": true, "k": rng.gen_range(0..6), "d": rng.gen_range(0..=maxd)})
             } else {
                 json!({"a": "write", "we": rng.gen_bool(0.93), "stale": rng.gen_bool(0.1), "d": rng.gen_range(0..=maxd)})
             });
